@@ -36,3 +36,32 @@ fn c27_q_is_printable_ascii() {
     kani::cover!(p, "printable");
     assert!(p == (b > 0x20 && b < 0x7f));
 }
+
+/// The table equals the GPT-2 `bytes_to_unicode` table, stated independently
+/// of `is_printable`: bytes 33..=126, 161..=172 and 174..=255 stand for
+/// themselves; every other byte b stands for U+0100 + (number of such bytes
+/// below b).
+#[kani::proof]
+#[kani::unwind(258)]
+fn c27_q_byte_to_char_matches_gpt2_table() {
+    let table = byte_to_char();
+    let b: u8 = kani::any();
+    let stands_for_itself = |x: u8| (33..=126).contains(&x) || (161..=172).contains(&x) || x >= 174;
+    let got = table[b as usize] as u32;
+    if stands_for_itself(b) {
+        kani::cover!(b == 0xae, "first byte after the soft hyphen");
+        assert!(got == b as u32, "printable byte not mapped to itself");
+    } else {
+        // rank among the bytes that do not stand for themselves
+        let mut rank = 0u32;
+        let mut x = 0u16;
+        while x < 256 {
+            if (x as u8) < b && !stands_for_itself(x as u8) {
+                rank += 1;
+            }
+            x += 1;
+        }
+        kani::cover!(b == 0xad, "soft hyphen");
+        assert!(got == 256 + rank, "non-printable byte mapped to the wrong code point");
+    }
+}
